@@ -35,6 +35,10 @@ def real_dim_dict(dim, kind, alias="arr"):
         refs["view"] = {"transform": {"insertions": [
             {"anchor": "top", "function": "any_non_missing_selected", "name": "ins", "id": 1,
              "kwargs": {"variable": alias, "subvariable_ids": []}}]}}
+    elif kind == "CA":
+        # real CA payloads carry subtotal insertions of their CATEGORIES in the view: these are no MR insertions
+        refs["view"] = {"transform": {"insertions": [
+            {"anchor": "top", "function": "subtotal", "name": "Top 2", "args": [1, 2], "id": 1}]}}
     sub = "num_arr" if kind == "NUM_ARRAY" else "variable"
     return {"derived": True, "references": refs,
             "type": {"class": "enum", "elements": els, "subtype": {"class": sub}}}
